@@ -60,6 +60,14 @@ Definition to_base_path (os : ostype) (B base_cwd path : str) : option str :=
       Some (join os [B; skipn (volume_name_len os p2) p2])
   end.
 
+(* isRoot: the path designates the root directory of the wrapper (Remove and RemoveAll
+   refuse it before anything reaches the base) *)
+Definition is_root (os : ostype) (B base_cwd path : str) : bool :=
+  match to_base_path os B base_cwd path with
+  | Some x => str_eqb x B
+  | None => false
+  end.
+
 (* Getwd of the wrapper (no error from the base) *)
 Definition bp_getwd (os : ostype) (B base_cwd : str) : option str := cur_dir os B base_cwd.
 
